@@ -6,6 +6,10 @@ with which its gradient is added (`gx += coef * gc`) are compared with the formu
     linear     rho*|h|            / rho*max(0,g)          gradient  rho*sign(h)*grad h / rho*grad g (g>0) else 0
     quadratic  rho*h^2            / rho*max(0,g)^2        gradient  2 rho h grad h     / 2 rho max(0,g) grad g
     AL         rho/2 (h+lambda/rho)^2 / rho/2 max(0, g+mu/rho)^2   gradient rho (h+lambda/rho) grad h / rho max(0, g+mu/rho) grad g
+
+Feasibility measures (kkt.py, back end B at a generic coordinate): ::make_criterion dominates the constraint violation (the clause the CBMC
+loop contract of the AL solver uses; its preconditions ro > 0 / miu >= 0 are obliged at the call sites, augmented.h), ::make_ro1 lies in
+[1e-6, 10], solver_state_t::kkt_optimality_test1..5 / kkt_optimality_test are the documented infinity norms of the stored values.
 """
 import re
 
@@ -412,7 +416,7 @@ def build(tier):
     vcs.append(VC('lemma/criterion dominates the violation: mu >= 0, rho > 0 => |max(g, -mu/rho)| >= max(0, g)',
                   '(declare-const g Real)(declare-const mu Real)(declare-const rho Real)(assert (and (>= mu 0.0) (> rho 0.0)))\n'
                   '(define-fun mx ((a Real) (b Real)) Real (ite (>= a b) a b))(define-fun ab ((a Real)) Real (ite (>= a 0.0) a (- a)))\n'
-                  '(assert (not (>= (ab (mx g (- (/ mu rho)))) (mx 0.0 g))))', about='elementwise kernel of ::make_criterion (the lifting to vectors is the assumed Eigen contract)'))
+                  '(assert (not (>= (ab (mx g (- (/ mu rho)))) (mx 0.0 g))))', about='elementwise kernel of the criterion formula (the extracted ::make_criterion itself is under contract in kkt.py: make_criterion/*)'))
     vcs.append(VC('lemma/penalty parameter stays positive: ro > 0, gamma > 1 => gamma*ro > 0; clamp(ro, 1e-6, 10) > 0; max(miu + ro*g, 0) >= 0',
                   '(declare-const ro Real)(declare-const gamma Real)(declare-const m Real)(declare-const g Real)(assert (and (> ro 0.0) (> gamma 1.0)))\n'
                   '(define-fun mx ((a Real) (b Real)) Real (ite (>= a b) a b))(define-fun mn ((a Real) (b Real)) Real (ite (<= a b) a b))\n'
